@@ -82,24 +82,30 @@ class Prims:
                 # several pushes in different arms (match): net effect per call is 0 or +1 — decided from the closure CFG
                 out[f] = self._closure_effects(a['closures'], unit(1), zero)
             elif ops == {'pop'}:
-                out[f] = {unit(-1)}
+                # exactly one pop on every path through the closure (a pop in a loop, or a second pop behind it, closes more than the scope it
+                # is called for: the enclosing `begin_keywords region goes with the transient directive marker)
+                cnt_ = self._closure_effects(a['closures'], 'one', 'none', op='pop')
+                if cnt_ == {'one'}:
+                    out[f] = {unit(-1)}
+                else:
+                    out[f] = 'other:pop ' + '/'.join(sorted(str(x_) for x_ in cnt_)) + ' times per call'
             elif ops == {'clear'}:
                 out[f] = 'clear'
             else:
                 out[f] = 'other:' + ','.join(sorted(ops))
         return out
 
-    def _closure_effects(self, closures, plus, zero):
+    def _closure_effects(self, closures, plus, zero, op='push'):
         res = set()
         for c in closures:
-            # paths through the closure: count pushes per path
+            # paths through the closure: count pushes (pops) per path
             states = {0: {0}}
             todo = [0]
-            push_blocks = {call.block for call in c.calls if vec_op(call) == 'push'}
+            push_blocks = {call.block for call in c.calls if vec_op(call) == op}
             while todo:
                 bi = todo.pop()
                 for cnt in list(states[bi]):
-                    ncnt = cnt + (1 if bi in push_blocks else 0)
+                    ncnt = min(cnt + (1 if bi in push_blocks else 0), 2)
                     blk = c.blocks[bi]
                     if blk[0] == 'r':
                         res.add(min(ncnt, 2))
@@ -428,6 +434,12 @@ def s3_s4(ctx):
             r4.fail('%s:effect-in-memoised:%s' % (PARSER, own_short), b.where(),
                     'memoised parser %s changes the keyword-version stack (%d bodies): whether the effect happens depends on memo hits, so '
                     'acceptance can depend on the memo capacity' % (own_short, len(non_neutral)), {'bodies': non_neutral})
+        if non_neutral and own_short not in memo_fns:
+            b = bodies[non_neutral[0]]
+            r4.fail('%s:effect-not-memoised:%s' % (PARSER, own_short), b.where(),
+                    'parser %s opens / closes a keyword-version region and is NOT memoised: it is reached through trivia, which every alternative that re-reads the preceding token '
+                    'scans again, so the region is opened (closed) once per scan instead of once per position — the memo entry is what makes a re-scan idempotent. The version stack '
+                    'ends up unbalanced, and by how much depends on which enclosing memo entries are present' % own_short, {'bodies': non_neutral})
     # any other memoised body with an effect is already an S3 violation
     # ---------------------------------------------------------------- S6
     nleaf = 0
